@@ -657,6 +657,9 @@ def cb_type(rs1, imm, *, opcode, funct3, cs=None):
 def cbi_type(rd_rs1, imm, *, opcode, funct2, funct3, cs=None):
     rd_rs1 = lookup_register(rd_rs1, compressed=True)
 
+    if imm < -32 or imm > 31:
+        raise ValueError('6-bit immediate must be between -0x20 (-32) and 0x1f (31): {}'.format(imm))
+
     # validate constraints
     for c in cs or []:
         c(rd_rs1=rd_rs1, imm=imm)
@@ -801,8 +804,8 @@ C_JAL      = partial(cj_type,  opcode=0b01, funct3=0b001)
 C_LI       = partial(ci_type,  opcode=0b01, funct3=0b010, cs=[RegRdRs1NotZero])
 C_ADDI16SP = partial(cia_type, opcode=0b01, funct3=0b011, cs=[ImmNotZero])  # special syntax
 C_LUI      = partial(ciu_type, opcode=0b01, funct3=0b011, cs=[RegRdRs1NotZero, RegRdRs1NotTwo, ImmNotZero])
-C_SRLI     = partial(cbi_type, opcode=0b01, funct2=0b00, funct3=0b100, cs=[ImmNotZero])
-C_SRAI     = partial(cbi_type, opcode=0b01, funct2=0b01, funct3=0b100, cs=[ImmNotZero])
+C_SRLI     = partial(cbi_type, opcode=0b01, funct2=0b00, funct3=0b100, cs=[ImmNotZero, ShamtBit5Zero])
+C_SRAI     = partial(cbi_type, opcode=0b01, funct2=0b01, funct3=0b100, cs=[ImmNotZero, ShamtBit5Zero])
 C_ANDI     = partial(cbi_type, opcode=0b01, funct2=0b10, funct3=0b100)
 C_SUB      = partial(ca_type,  opcode=0b01, funct2=0b00, funct6=0b100011)
 C_XOR      = partial(ca_type,  opcode=0b01, funct2=0b01, funct6=0b100011)
